@@ -132,6 +132,9 @@ def run(tier, rep):
                     got_s.append((bytes(r), str(p)))
                 elif sock.drained:
                     break
+        except Exception as err:  # pylint: disable=broad-except
+            # a failed receive is a short read, never an exception out of the reader
+            got_s.append((b"<exception>", type(err).__name__))
         finally:
             sock.close()
         got_f = [(bytes(r), str(p)) for r, p in RTCMReader(io.BytesIO(data), quitonerror=0)]
